@@ -196,6 +196,98 @@ theorem calls_first_time (cfg : Cfg ℚ) (add : V → V → V) (inc : ℚ → V 
     have h2 := calls_first_time cfg add inc fuel rest (DV.Run.integrate cfg add inc s t fuel) htr.2
     exact h2.trans h1
 
+/-! ## the `t_eval` loop of the facade -/
+
+/-- the system left by the facade's loop is the system left by the same calls through the object API -/
+theorem tevalLoop_sys (cfg : Cfg ℚ) (add : V → V → V) (inc : ℚ → V → ℚ → V) (fuel : Nat) :
+    ∀ (ts : List ℚ) (s : SysY ℚ V), (tevalLoop cfg add inc fuel s ts).1 = calls cfg add inc fuel s ts
+  | [], _ => rfl
+  | t :: rest, s => by
+    simp only [tevalLoop, calls]
+    exact tevalLoop_sys cfg add inc fuel rest _
+
+/-- recorded samples as pairs, newest first -/
+def samples (s : SysY ℚ V) : List (ℚ × V) := List.zip s.sys.ts s.ys
+
+theorem trace_suffix (base : List ℚ) : ∀ (rs : List (Req ℚ)) (ts : List ℚ), Trace base ts rs →
+    ∃ news, ts = news ++ base ∧ news.length = rs.length
+  | [], ts, h => ⟨[], by simpa [Trace] using h, rfl⟩
+  | _ :: _, [], h => by simp [Trace] at h
+  | _ :: _, [_], h => by simp [Trace] at h
+  | _ :: rs, t' :: t :: rest, h => by
+    obtain ⟨news, h1, h2⟩ := trace_suffix base rs (t :: rest) h.2.2
+    exact ⟨t' :: news, by rw [h1]; rfl, by simp [h2]⟩
+
+theorem extend_suffix (add : V → V → V) (inc : ℚ → V → ℚ → V) (ys0 : List V) (hne : ys0 ≠ []) :
+    ∀ (rs : List (Req ℚ)), ∃ news, extend add inc ys0 rs = news ++ ys0 ∧ news.length = rs.length
+  | [] => ⟨[], rfl, rfl⟩
+  | r :: rs => by
+    obtain ⟨news, h1, h2⟩ := extend_suffix add inc ys0 hne rs
+    cases hex : extend add inc ys0 rs with
+    | nil =>
+      rw [hex] at h1
+      cases news with
+      | nil => exact absurd h1.symm hne
+      | cons a l => simp at h1
+    | cons y ys =>
+      refine ⟨add y (inc r.t y r.h) :: news, ?_, by simp [h2]⟩
+      simp only [extend, hex]
+      rw [hex] at h1
+      rw [h1]; rfl
+
+/-- a call only adds samples: the earlier ones stay, as a suffix of the newest-first list -/
+theorem integrate_samples_suffix (cfg : Cfg ℚ) (add : V → V → V) (inc : ℚ → V → ℚ → V) (s : SysY ℚ V) (target : ℚ) (fuel : Nat)
+    (h : StepsOK add inc s.sys.ts s.ys) :
+    ∃ pre, samples (DV.Run.integrate cfg add inc s target fuel) = pre ++ samples s := by
+  have hne : s.sys.ts ≠ [] := by intro h0; rw [h0] at h; simp [StepsOK] at h
+  have hyne : s.ys ≠ [] := by
+    intro h0; have := h.length_eq; rw [h0] at this
+    exact hne (List.length_eq_zero_iff.mp this)
+  obtain ⟨nt, ht1, ht2⟩ := trace_suffix s.sys.ts _ _ (integrate_trace cfg s.sys target fuel hne).1
+  obtain ⟨ny, hy1, hy2⟩ := extend_suffix add inc s.ys hyne (Loop.integrate cfg s.sys target DVP.Loop.fixedOrc fuel).reqs
+  refine ⟨List.zip nt ny, ?_⟩
+  unfold samples DV.Run.integrate
+  rw [fixedOrc_eq]
+  simp only
+  rw [ht1, hy1, List.zip_append (by rw [ht2, hy2])]
+
+theorem calls_samples_suffix (cfg : Cfg ℚ) (add : V → V → V) (inc : ℚ → V → ℚ → V) (fuel : Nat) :
+    ∀ (ts : List ℚ) (s : SysY ℚ V), StepsOK add inc s.sys.ts s.ys → ∃ pre, samples (calls cfg add inc fuel s ts) = pre ++ samples s
+  | [], s, _ => ⟨[], rfl⟩
+  | t :: rest, s, h => by
+    obtain ⟨p1, h1⟩ := integrate_samples_suffix cfg add inc s t fuel h
+    obtain ⟨p2, h2⟩ := calls_samples_suffix cfg add inc fuel rest _ (integrate_steps cfg add inc s t fuel h).1
+    exact ⟨p2 ++ p1, by simp only [calls]; rw [h2, h1, List.append_assoc]⟩
+
+/-- the facade returns one column per requested time, and every column is a recorded sample of the system it hands back -/
+theorem tevalLoop_columns (cfg : Cfg ℚ) (add : V → V → V) (inc : ℚ → V → ℚ → V) (fuel : Nat) :
+    ∀ (ts : List ℚ) (s : SysY ℚ V), StepsOK add inc s.sys.ts s.ys →
+      (tevalLoop cfg add inc fuel s ts).2.length = ts.length ∧
+      ∀ c ∈ (tevalLoop cfg add inc fuel s ts).2, c ∈ samples (tevalLoop cfg add inc fuel s ts).1
+  | [], s, _ => ⟨rfl, fun c hc => by simp [tevalLoop] at hc⟩
+  | t :: rest, s, h => by
+    have h1 := (integrate_steps cfg add inc s t fuel h).1
+    obtain ⟨ihl, ihm⟩ := tevalLoop_columns cfg add inc fuel rest _ h1
+    -- the newest sample of the system after the call
+    obtain ⟨tt, tr, y, yr, e1, e2⟩ : ∃ tt tr y yr, (DV.Run.integrate cfg add inc s t fuel).sys.ts = tt :: tr ∧
+        (DV.Run.integrate cfg add inc s t fuel).ys = y :: yr := by
+      cases e1 : (DV.Run.integrate cfg add inc s t fuel).sys.ts with
+      | nil => rw [e1] at h1; simp [StepsOK] at h1
+      | cons tt tr =>
+        cases e2 : (DV.Run.integrate cfg add inc s t fuel).ys with
+        | nil => rw [e1, e2] at h1; cases tr <;> simp [StepsOK] at h1
+        | cons y yr => exact ⟨tt, tr, y, yr, rfl, rfl⟩
+    have hhead : (tt, y) ∈ samples (DV.Run.integrate cfg add inc s t fuel) := by
+      unfold samples; rw [e1, e2]; simp
+    obtain ⟨pre, hpre⟩ := calls_samples_suffix cfg add inc fuel rest _ h1
+    simp only [tevalLoop, e1, e2]
+    refine ⟨by simp [ihl], ?_⟩
+    intro c hc
+    simp only [List.cons_append, List.nil_append, List.mem_cons] at hc
+    rcases hc with rfl | hc
+    · rw [tevalLoop_sys, hpre]; exact List.mem_append_right _ hhead
+    · exact ihm c hc
+
 /-! ## shifting and mirroring the time axis -/
 
 theorem extend_shift (add : V → V → V) (inc : ℚ → V → ℚ → V) (c : ℚ) (hinc : ∀ t y h, inc (t + c) y h = inc t y h)
